@@ -409,3 +409,38 @@ package st
 //@   nosafe
 //@   modifies *
 //@   ensures [must-fail-decoder-writes] result == ""
+//@ func (*Holder).FillKeepsPrivate
+//@   props: S01
+//@   level: PA
+//@   nosafe
+//@   requires h != nil && h.In != nil
+//@   modifies *
+//@   ensures [unexported-kept-across-decoder] result == old(h.limit)
+//@ func (*Holder).FillMayChangeDoc
+//@   props: S01
+//@   level: PA
+//@   nosafe
+//@   requires h != nil && h.In != nil
+//@   modifies *
+//@   ensures [must-fail-exported-decoded] result == old(h.In.Doc)
+//@ func (*Holder).FillQuotaByAddress
+//@   props: S01
+//@   level: PA
+//@   nosafe
+//@   requires h != nil && h.In != nil
+//@   modifies *
+//@   ensures [must-fail-address-decoded] result == old(h.quota)
+//@ func (*Holder).ReadsAfterBump
+//@   props: S01
+//@   level: PA
+//@   nosafe
+//@   requires h != nil
+//@   modifies *
+//@   ensures [must-fail-first-read-after-call] result == old(h.limit)
+//@ func (*Holder).QuotaByForeignAddress
+//@   props: S01
+//@   level: PA
+//@   nosafe
+//@   requires h != nil
+//@   modifies *
+//@   ensures [must-fail-address-foreign] result == old(h.quota)
